@@ -54,6 +54,20 @@ def K(name, harness=None, cap=600, tier="q", mode="func", **kw):
     return d
 
 
+def borrow(spec_fn, seed, names, why, tier="q"):
+    """Obligations introduced under another property, registered here too because this
+    property rests on the same code (same harness, same bounds, same replay mapping)."""
+    out = []
+    for o in spec_fn("thorough", seed)["obligations"]:
+        if o["name"] in names:
+            d = dict(o)
+            d["tier"] = tier
+            d["claim"] = why + " — " + d.get("claim", "")
+            out.append(d)
+    assert len(out) == len(names), (names, [o["name"] for o in out])
+    return out
+
+
 def c09(tier, seed):
     obs = []
     dec_stubs = ["barrier_noop", "fp_from_repr_spec"]
@@ -138,6 +152,11 @@ def c07(tier, seed):
         M("c07::constants", "MODULUS, R, R2, INV, NUM_BITS, CAPACITY, S, TWO_INV, MULTIPLICATIVE_GENERATOR, ROOT_OF_UNITY(_INV), DELTA, ZERO, ONE have their interface meaning (closed formulas over the constants parsed from the MIR)", bounds="ground"),
         M("c07::addition-chains", "invert raises to p-2 and sqrt to (p+1)/4: exponent tracked through the square/mul chain of the MIR, using the proved contracts of square and mul", bounds="ground", functions=["Fp::invert", "Fp::sqrt"]),
     ]
+    # the decoding *call sites*: whatever `Fp::from_repr(..)` resolves to in Share::try_from (the derived
+    # trait method today; an inherent method of the same name would shadow it) rejects every encoding of an
+    # integer not below the modulus, at the x position and at a y position
+    obs += borrow(c08, seed, ["c08::c08_sharks_accept_24", "c08::c08_sharks_accept_48"],
+                  "encodings of integers not below the modulus are rejected where shares are decoded (Engine K: the compiled call site, so a same-named inherent from_repr that shadows the derived one is executed, not the derived one)")
     return {
         "obligations": obs,
         "level": "proof",
@@ -147,7 +166,7 @@ def c07(tier, seed):
                         "the rustc MIR dump (-Zunpretty=mir, overflow-checks=on) is the semantics of the compiled code",
                         "p = 2^128+12451 is prime and (p-1)/2 is prime (number theory, not decided by SMT)",
                         "Fermat's little theorem / Euler's criterion for the meaning of the invert and sqrt exponents"],
-        "trusted_base": ["/verif/mirsmt (MIR parser + symbolic interpreter, validated against the native build on every run)", "/usr/bin/z3 4.8.12 and cvc5 1.0 (every query sent to both)", "rustc nightly MIR dump"],
+        "trusted_base": ["/verif/mirsmt (MIR parser + symbolic interpreter, validated against the native build on every run)", "/usr/bin/z3 4.8.12 and cvc5 1.0 (every query sent to both)", "rustc nightly MIR dump", "Kani 0.68 / CBMC 6.11 for the two decoding call-site obligations (c08::*)"],
         "explanation": "symbolic execution of the MIR of the derived field code into integer SMT (wrap-around explicit), obligations decided by z3 and cvc5 for all operands",
     }
 
@@ -481,6 +500,8 @@ def c05(tier, seed):
                  bounds="honest threshold-2 sharing of 2-byte message/coins; interpolated key = arbitrary 24 bytes or error", stubs=ADSS + ["Sharks::recover -> arbitrary Ok(24 bytes) / Err"],
                  functions=["adss::recover", "adss::Commune::verify"],
                  to_case=lambda o, info: adss_case(o, info, [("m", 2), ("r", 2)], t=2, n_shares=2, expect_ok=True)))
+    obs += borrow(c01, seed, ["c16b::c01_selection_reaches_shamir_3", "c16b::c01_selection_reaches_shamir_3_t2"], "'the sharing to which the first share belongs': adss::recover takes threshold (and C, D, J) from the first share of the collection as given by the caller, whatever the points, order and repeats of the collection")
+    obs += borrow(c02, seed, ["mir::recover-structure"], "which points of a mixed / reordered / repeated collection reach interpolation: exactly the first t distinct ones in caller order (first occurrence of a repeated point), so the interpolated key is a function of those alone")
     obs.append(M("native::c05-faults", "concrete cross-check on the natively compiled crates (not a solver query; produces replayable counterexamples when a change rewrites code into a shape the symbolic engines refuse): every byte of the encoded ciphertext-supplying share flipped (t = 1 with 1 share, t = 2 with 2 and 3 shares) and the recorded threshold raised to the number of shares present: recovery rejects (for t = 1 the unauthenticated point bytes only require error-or-exactly-M)", bounds="concrete, 3-byte message, 2-byte coins"))
     return {
         "obligations": obs, "level": "model_checking",
@@ -627,6 +648,9 @@ def c01(tier, seed):
     obs.append(K("c06::c06_interpolate_t3", cap=600, tier="t", must_cover=["reached"], claim="as above", bounds="t=3, GF(13)", stubs=SF))
     for h in ("c16_recover_t1_m1_r1",):
         obs.append(K("c16b::" + h, tier="t", cap=2400, mem=30, must_cover=["reached"], claim="threshold 1: share -> recover returns exactly the message", bounds="see C16", stubs=ADSS))
+    obs += borrow(c08, seed, ["c08::c08_load_bytes_ref_big"], "the aggregator splits every decrypted payload and every report with load_bytes: length headers of all widths (beyond one byte, beyond 64 KiB) select exactly the little-endian length")
+    obs += borrow(c08, seed, ["c08::c08_message_accept_120"], "every well-formed report is accepted by Message::from_bytes, in particular short ciphertexts (0..4 bytes: the empty measurement without associated data encrypts to exactly 4 bytes)")
+    obs += borrow(c04, seed, ["c03::c04_ske_sep_0_1"], "key re-derivation works for the empty epoch as well (no panic, same function of (message, epoch))")
     obs.append(M("native::e2e-scenarios", "concrete cross-check on the natively compiled crates (not a solver query): n = 5 clients, t in {1,2,3}, measurements of 0/1/3/300 bytes, epochs empty/non-empty, associated data none/empty/short/200 bytes, selections with repeats, surplus, permutations and sub-threshold sets: every report survives the wire, recovery succeeds iff the selection holds t distinct shares, every selected report decrypts to exactly (measurement, aux or absence)",
                  bounds="the listed scenario family (every third scenario in quick)"))
     return {
@@ -656,6 +680,11 @@ def ggm_spec(tier, seed, fam, what):
                      ggm=("history", k), tags=[fam, "c10::fresh", "c10::wrong"] if fam == "c10::" else [fam]))
     obs.append(M("native::ggm-sweep", "%sreal GGM with the real Strobe PRG: all 256 values pairwise distinct; wrong lengths refused with the key unchanged; every (puncture, probe) pair of the domain; 400 seeded histories of 2..6 punctures (sibling-first, neighbours, repeats) probed at the punctured inputs, their siblings and random inputs: punctured inputs fail, all others keep their value" % NAT, bounds="concrete, seeded"))
     if fam == "c11::":
+        for k, q in ((1, "q"), (2, "q"), (3, "t")):
+            obs.append(M("ggm::sync-k%d" % k, "the key state exported for synchronisation after every history of %d symbolic puncture(s), imported into another server instance — a fresh one and a replica that was synchronised *before* the punctures (same OPRF and public key) — leaves the importer equal to the exporter: every puncture made so far is taken over, so the importer retains no node on the path to a punctured tag either (Server::set_private_key and Server::puncture from their MIR)" % k,
+                         tier=q, bounds="k = %d punctures, symbolic tags; registered sets {0,255}, {1,2}, {}; the serde bytes of the transfer are outside (C15)" % k,
+                         functions=["Server::set_private_key", "Server::puncture", "Server::new", "<GGM as PPRF>::puncture"],
+                         ggm=("server", k), tags=["c14::import", "c14::puncture"]))
         obs.append(M("native::server-histories", "%sexported key state of a real Server after concrete puncture histories (via the server scenarios): see C14" % NAT, bounds="concrete"))
     return {
         "obligations": obs, "level": "model_checking",
